@@ -24,7 +24,7 @@ def definitional(reduced):
     return [[a, b - a - 1] for a, b in zip(reduced, reduced[1:])]
 
 
-def check_set(rec, n, reduced, position_lists, perms='some'):
+def check_set(rec, n, reduced, position_lists, perms='some', idx_dtype='int64'):
     L = lib.lib()
     red = np.array(reduced, dtype=int)
     pts = np.column_stack((np.arange(n, dtype=float), np.zeros(n)))
@@ -53,7 +53,13 @@ def check_set(rec, n, reduced, position_lists, perms='some'):
         for name, rem, flag in variants:
             if m == 0:
                 continue
-            out = rec.call(4 * n + 16, L.rdp.mapping, np.array(I, dtype=int), red, rem, flag, _site='rdp.mapping')
+            if idx_dtype == 'list':
+                Iarg = list(I)
+            else:
+                dt = np.dtype(idx_dtype)
+                # a position list may be held in any integer type that can represent the positions
+                Iarg = np.array(I, dtype=dt if (not I or max(I) <= np.iinfo(dt).max) else np.int64)
+            out = rec.call(4 * n + 16, L.rdp.mapping, Iarg, red, rem, flag, _site='rdp.mapping')
             if out is FAILED:
                 return
             got = [int(v) for v in np.asarray(out)]
@@ -87,16 +93,18 @@ def oracle_exhaustive(case, rec):
 
 @st.composite
 def sampled(draw, tier):
-    n = draw(st.integers(2, 500 if tier == 'thorough' else 120))
+    n = draw(st.one_of(st.integers(2, 60), st.integers(2, 1000 if tier == 'thorough' else 500)))
     reduced = draw(S.index_sets(n))
     m = len(reduced)
     I = sorted(set(draw(st.lists(st.integers(0, m - 1), max_size=12))))
-    return {'kind': 'sampled', 'n': n, 'reduced': reduced, 'I': I}
+    return {'kind': 'sampled', 'n': n, 'reduced': reduced, 'I': I,
+            'dtype': draw(st.sampled_from(['int64', 'int64', 'int32', 'int16', 'uint16', 'uint8', 'int8', 'list']))}
 
 
 def oracle_sampled(case, rec):
     rec.tag('sampled')
-    check_set(rec, case['n'], case['reduced'], [case['I'], list(range(len(case['reduced'])))])
+    rec.tag('positions:' + case.get('dtype', 'int64'))
+    check_set(rec, case['n'], case['reduced'], [case['I'], list(range(len(case['reduced'])))], idx_dtype=case.get('dtype', 'int64'))
 
 
 @st.composite
